@@ -26,6 +26,7 @@ RULE = (
     "(purge + re-import), Config(infer_from_env=...) probes, config attribute assignments, find_answer/solve with backend omitted / "
     "each name / unknown / a class, and six graph constraints with use_graph_primitive omitted / True / False; non-trivial = at least "
     "one restart and one dispatched call or graph constraint after it; distinct = distinct event-log SHA-256"
+    '; fault injection: the recipient of one call in twelve (external process, extension module, given backend class) dies during the call; division_connected is called with an array, a list and a tuple in turn'
 )
 STATE_MEASURE = "distinct (durable state, volatile config) pairs of the reference model at operation time"
 COMPONENTS = {
